@@ -26,9 +26,9 @@ PROPS = {
                          'harness/c15.py: canonicalisation of Python keys/dists to model tokens, tolerance 1e-12 on float values',
                          'modelled not verified: scipy.stats distributions (isf is an oracle), numpy broadcasting in unit_to_physical']),
     'C16': dict(module='c16', pfile='P_C16',
-                required=['C16_grid_range', 'C16_grid_others', 'C16_grid_inverse', 'C16_grid_gap', 'C16_float_range', 'C16_float_asis_refuted'],
+                required=['C16_grid_range', 'C16_grid_others', 'C16_grid_inverse', 'C16_grid_gap', 'C16_float_range', 'C16_float_inverse', 'C16_float_asis_refuted'],
                 trusted=[KERNEL, 'model evaluated inside Coq by vm_compute on generated cases_C16_*.v (no extraction)',
-                         'axioms (C16_float_range only): primitive float/int63 operations and the stdlib FloatAxioms specs (add/sub/opp/ltb/leb, Prim2SF_valid, SF2Prim_Prim2SF, Prim2SF_SF2Prim), ClassicalDedekindReals.sig_forall_dec, sig_not_dec, Classical_Prop.classic, FunctionalExtensionality.functional_extensionality_dep (through Reals and Flocq)',
+                         'axioms (C16_float_range and C16_float_inverse only): primitive float/int63 operations and the stdlib FloatAxioms specs (add/sub/opp/ltb/leb, Prim2SF_valid, SF2Prim_Prim2SF, Prim2SF_SF2Prim), ClassicalDedekindReals.sig_forall_dec, sig_not_dec, Classical_Prop.classic, FunctionalExtensionality.functional_extensionality_dep (through Reals and Flocq)',
                          'harness/c16.py: hex-float literal printing, grid scaling by 2^21',
                          'modelled not verified: numpy remainder (npy_divmod) semantics on (-1,2), written into PhaseFloat.fmod1 and compared bit for bit']),
     'C13': dict(module='c13', pfile='P_C13',
